@@ -72,6 +72,8 @@ type truth struct {
 	Dispatched   bool      `json:"dispatched"` // user code of this request ran
 	Uploaded     int64     `json:"uploaded"`
 	Status       int       `json:"http_status,omitempty"`
+	CutShort     bool      `json:"response_write_cut_short,omitempty"` // the ResponseWriter accepted only Recv bytes, then failed
+	CutLimit     int       `json:"cut_limit,omitempty"`
 	records      []map[string]any
 }
 
@@ -320,7 +322,7 @@ type world struct {
 var pipeClasses = []string{"unary:value", "unary:void", "unary:error", "unary:panic", "unary:param-mismatch", "unary:unknown-method",
 	"stream:complete", "stream:turn-error", "stream:turn-panic", "stream:turn-none", "stream:init-error", "stream:init-panic",
 	"stream:cancel", "stream:early-eos", "stream:not-castable", "stream:castable", "stream:param-mismatch", "unary:proto-refused"}
-var httpClasses = []string{"unary:value", "unary:void", "unary:error", "unary:panic", "unary:param-mismatch", "unary:big",
+var httpClasses = []string{"unary:value", "unary:void", "unary:error", "unary:panic", "unary:param-mismatch", "unary:big", "unary:write-cut-short",
 	"stream:complete", "stream:turn-error", "stream:turn-panic", "stream:turn-none", "stream:init-error", "stream:init-panic",
 	"stream:cancel", "stream:early-eos", "stream:not-castable", "stream:castable", "stream:param-mismatch", "stream:big", "unary:proto-refused"}
 
@@ -572,8 +574,71 @@ func (w *world) httpTruth(c wn.HTTPCall, class, mtype string, o wn.PostOpt, auth
 		Auth: auth, Status: c.Resp.Status}
 }
 
+// cutShortCall makes the same unary call twice: once healthy (to learn the
+// size of the response body as it goes out, after compression), once with a
+// ResponseWriter that accepts only `limit` body bytes and then fails like a
+// connection whose peer went away. The record of the second call must report
+// the bytes the writer accepted.
+func (w *world) cutShortCall(k int, sid string) {
+	class := "unary:write-cut-short"
+	p := w.genPlan("unary:value", sid)
+	p.Method = "u_str"
+	p.Args.Tag = strings.Repeat("payload-", 40+w.rng.IntN(600))
+	p.Script.ULogs = nil
+	auth := genAuth(w.rng, fmt.Sprintf("k%dc%d", w.cfg.Index, k))
+	rel, q := p.params()
+	defer rel.Release()
+	canon := gen.CanonValues(q.Params)
+	o := w.postOpt(auth)
+	o.Chunked, o.ReqEncoding = false, ""
+	delete(o.Header, "X-VGI-Accept-Encoding")
+	switch enc := []string{"identity", "zstd", "gzip"}[(w.cfg.Index+k)%3]; enc {
+	case "identity":
+		o.Header["Accept-Encoding"] = "identity"
+	default:
+		o.Header["Accept-Encoding"] = enc
+	}
+	var limit int
+	for round := 0; round < 2; round++ {
+		id := w.id()
+		q.RequestID = id
+		oo := o
+		if round == 1 {
+			oo.FailWrite, oo.FailAfter = true, limit
+		}
+		mark, up0 := int64(w.log.Len()), w.uploaded()
+		c := w.post.Unary(q, id, oo)
+		if c.Resp.Panic != "" || (c.Resp.Err != "" && !c.Resp.WriteFail) {
+			w.rep.Inconclusive = append(w.rep.Inconclusive, fmt.Sprintf("http %s: err=%q panic=%q", class, c.Resp.Err, c.Resp.Panic))
+			return
+		}
+		t := w.httpTruth(c, class, "unary", oo, auth)
+		t.HasPayload, t.ParamsCanon = true, canon
+		t.Dispatched, t.Uploaded = w.dispatched(mark, sid), w.uploaded()-up0
+		t.CutShort, t.CutLimit = c.Resp.WriteFail, limit
+		if round == 0 {
+			t.ExpectStatus = map[bool]string{false: "ok", true: "error"}[c.Failed]
+			n := int(c.Resp.Recv)
+			if n < 2 {
+				w.truth = append(w.truth, t)
+				return
+			}
+			limit = []int{0, 1, min(17, n-1), n / 2, n - 1}[w.rng.IntN(5)]
+		}
+		w.truth = append(w.truth, t)
+	}
+}
+
 func (w *world) httpCall(k int, class string) {
 	sid := fmt.Sprintf("s-c38-k%d-c%d", w.cfg.Index, k)
+	if class == "unary:write-cut-short" {
+		if w.post.Handler == nil {
+			class = "unary:value" // the failing ResponseWriter exists in process only
+		} else {
+			w.cutShortCall(k, sid)
+			return
+		}
+	}
 	p := w.genPlan(class, sid)
 	auth := genAuth(w.rng, fmt.Sprintf("k%dc%d", w.cfg.Index, k))
 	rel, q := p.params()
